@@ -19,6 +19,7 @@ import AutomataVerif.Proofs.ExpandValid
 import AutomataVerif.Proofs.Rename
 import AutomataVerif.Proofs.Complete
 import AutomataVerif.Proofs.Partial
+import AutomataVerif.Proofs.MinCompose
 
 namespace AV.Props.C04
 open AV AV.DFA
@@ -317,5 +318,182 @@ example : (exC.toPartialPlain.states, exC.toPartialPlain.trans, exC.toPartialPla
     exC.accepts [0, 0, 0], exC.toPartialPlain.accepts [0, 1]) =
     ([0, 1], [(0, [(0, 1)]), (1, [(0, 0)])], true, true, false) := by decide
 example : exC.toPartialPlain.validate = .ok () := by rfl
+
+/-! ## 7. `minify=True`: composition with `_minify` (C05)
+
+Each `minify=True` path hands `_minify` (`minifyCore`) a set of kept states, the transition
+table and a set of final states.  Proved here, unconditionally: the call is admissible
+(`MinifyCall`: the preconditions `MinHyp`, duplicate-free rows, every kept state reachable
+inside the refinement system) and the language of the refinement system is the intended one.
+What `_minify` returns for an admissible call (`MinifyCoreOk`: valid, duplicate-free,
+accepts the language of the refinement system) is C05's theorem (Proofs/MinQuotient.lean +
+Proofs/Hopcroft.lean); the corollaries below take it as an explicit hypothesis `hmin`. -/
+
+/-- `A.op(B, minify=True)`: the call of `_minify` is admissible and its refinement system
+accepts exactly the set operation of the operands' verdicts. -/
+theorem C04_binop_min_call (op : BinOp) (A B : AV.DFA σ α) (hA : A.validate = .ok ())
+    (hB : B.validate = .ok ()) (pA : A.PyShape) (hs : A.symsEq B = true) :
+    ∃ P, A.binopPlain op B = .ok P ∧ P.syms = A.syms ∧
+      MinifyCall P.states P.syms P.trans P.init P.finals ∧
+      ∀ w, mfin P.finals (mrun P.states P.trans (some P.init) w) =
+        op.fin (A.accepts w) (B.accepts w) := by
+  obtain ⟨P, hP, hv, hp, hsy, _⟩ := C04_binop_valid op A B hA hB pA hs
+  obtain ⟨P', hP', hl⟩ := C04_binop_lang op A B hA hB pA hs
+  have : P' = P := by rw [hP] at hP'; cases hP'; rfl
+  subst this
+  have wf := (DFA.validate_eq_ok P').mp hv
+  refine ⟨P', hP, hsy, ?_, fun w => (msys_accepts_of_valid wf w).trans (hl w)⟩
+  have hyp := product_expandHyp A B op.lrel op.rrel hA hB pA
+  have hPe : P' = expand (A.crossSucc B op.lrel op.rrel)
+      (fun s => op.fin (A.isFinalO s.1) (B.isFinalO s.2)) A.syms (A.prodFuel B) (some A.init, some B.init) := by
+    unfold binopPlain at hP
+    simp only [hs, Bool.not_true, Bool.false_eq_true, if_false] at hP
+    cases hP; rfl
+  exact minifyCall_of_valid wf hp (by rw [hPe]; exact expand_reach _ _ hyp)
+
+/-- The full statement for `minify=True` Boolean operations (proved below modulo C05). -/
+def C04_binop_min_full : Prop :=
+  ∀ (σ α : Type) [DecidableEq σ] [DecidableEq α] (op : BinOp) (A B : AV.DFA σ α)
+    (pick : List Nat → Nat), A.validate = .ok () → B.validate = .ok () → A.PyShape →
+    A.symsEq B = true →
+    ∃ M, A.binopMin op B pick = .ok M ∧ M.validate = .ok () ∧ M.PyShape ∧ M.syms = A.syms ∧
+      ∀ w, M.accepts w = op.fin (A.accepts w) (B.accepts w)
+
+/-- **Boolean operations, `retain_names=True, minify=True`** — given C05's guarantee `hmin`
+for the one call of `_minify` made: the result is a valid DFA over the operands' alphabet
+with exactly the set-operation language. -/
+theorem C04_binop_min_partial (op : BinOp) (A B : AV.DFA σ α) (pick : List Nat → Nat)
+    (hA : A.validate = .ok ()) (hB : B.validate = .ok ()) (pA : A.PyShape) (hs : A.symsEq B = true)
+    (hmin : ∀ P, A.binopPlain op B = .ok P →
+      MinifyCoreOk P.states P.syms P.trans P.init P.finals pick) :
+    ∃ M, A.binopMin op B pick = .ok M ∧ M.validate = .ok () ∧ M.PyShape ∧ M.syms = A.syms ∧
+      ∀ w, M.accepts w = op.fin (A.accepts w) (B.accepts w) := by
+  obtain ⟨P, hP, hsy, _, hl⟩ := C04_binop_min_call op A B hA hB pA hs
+  have ok := hmin P hP
+  refine ⟨minifyCore P.states P.syms P.trans P.init P.finals pick, ?_, ok.valid, ok.pyShape,
+    (minifyCore_syms _ _ _ _ _ _).trans hsy, fun w => (ok.accepts w).trans (hl w)⟩
+  unfold binopMin; rw [hP]
+
+/-- `C04_binop_min_full` follows from C05's guarantee for all admissible calls. -/
+theorem C04_binop_min_of_C05
+    (hC05 : ∀ (σ α : Type) [DecidableEq σ] [DecidableEq α] (kept : List σ) (syms : List α)
+      (trans : List (σ × List (α × σ))) (init : σ) (finals : List σ) (pick : List Nat → Nat),
+      MinifyCall kept syms trans init finals → MinifyCoreOk kept syms trans init finals pick) :
+    C04_binop_min_full := by
+  intro σ α _ _ op A B pick hA hB pA hs
+  refine C04_binop_min_partial op A B pick hA hB pA hs (fun P hP => ?_)
+  obtain ⟨P', hP', _, hcall, _⟩ := C04_binop_min_call op A B hA hB pA hs
+  have : P' = P := by rw [hP] at hP'; cases hP'; rfl
+  subst this
+  exact hC05 _ _ _ _ _ _ _ _ hcall
+
+/-- `complement(minify=True)` of a complete DFA: the call of `_minify` (kept = states found
+by `_bfs_states`, final = kept non-final states) is admissible and its refinement system
+accepts the complement relative to the alphabet. -/
+theorem C04_complement_min_call (c : AV.DFA σ α) (hv : c.validate = .ok ()) (pc : c.PyShape)
+    (hc : c.IsComplete) :
+    MinifyCall c.reachStates c.syms c.trans c.init (c.reachStates.filter fun q => decide (q ∉ c.finals)) ∧
+    ∀ w, mfin (c.reachStates.filter fun q => decide (q ∉ c.finals))
+        (mrun c.reachStates c.trans (some c.init) w) =
+      ((w.all fun a => decide (a ∈ c.syms)) && !c.accepts w) := by
+  have wf := (DFA.validate_eq_ok c).mp hv
+  exact ⟨complementMin_call wf pc, complementMin_sys wf pc hc⟩
+
+/-- The full statement for `complement(minify=True)` (proved below modulo C05). -/
+def C04_complement_min_full : Prop :=
+  ∀ (σ α : Type) [DecidableEq σ] [DecidableEq α] (d : AV.DFA σ α) (trap : σ)
+    (pick : List Nat → Nat), d.validate = .ok () → d.PyShape → trap ∉ d.states →
+    ∃ M, d.complementMinFull trap pick = .ok M ∧ M.validate = .ok () ∧ M.PyShape ∧
+      M.syms = d.syms ∧
+      ∀ w, M.accepts w = ((w.all fun a => decide (a ∈ d.syms)) && !d.accepts w)
+
+/-- **Complement, `minify=True`** — given C05's guarantee `hmin` for the one call of
+`_minify` made (on the completed operand). -/
+theorem C04_complement_min_partial (d : AV.DFA σ α) (trap : σ) (pick : List Nat → Nat)
+    (hd : d.validate = .ok ()) (pd : d.PyShape) (ht : trap ∉ d.states)
+    (hmin : ∀ C, (if d.allowPartial then d.toComplete trap false else .ok d) = .ok C →
+      MinifyCoreOk C.reachStates C.syms C.trans C.init
+        (C.reachStates.filter fun q => decide (q ∉ C.finals)) pick) :
+    ∃ M, d.complementMinFull trap pick = .ok M ∧ M.validate = .ok () ∧ M.PyShape ∧
+      M.syms = d.syms ∧
+      ∀ w, M.accepts w = ((w.all fun a => decide (a ∈ d.syms)) && !d.accepts w) := by
+  have wf := (DFA.validate_eq_ok d).mp hd
+  have key : ∃ C, (if d.allowPartial then d.toComplete trap false else .ok d) = .ok C ∧
+      C.validate = .ok () ∧ C.PyShape ∧ C.syms = d.syms ∧ C.IsComplete ∧
+      ∀ w, C.accepts w = d.accepts w := by
+    cases hap : d.allowPartial with
+    | false => exact ⟨d, by simp, hd, pd, rfl, isComplete_of_flag wf hap, fun _ => rfl⟩
+    | true =>
+      obtain ⟨C, hC, hv, hp, hs, hc, _, _, hacc⟩ := C04_to_complete d hd pd trap false ht
+      exact ⟨C, by simpa using hC, hv, hp, hs, hc, hacc⟩
+  obtain ⟨C, hC, hv, hp, hs, hc, hacc⟩ := key
+  have ok := hmin C hC
+  obtain ⟨_, hl⟩ := C04_complement_min_call C hv hp hc
+  refine ⟨C.complementMin pick, ?_, ok.valid, ok.pyShape,
+    (minifyCore_syms _ _ _ _ _ _).trans hs, fun w => ?_⟩
+  · unfold complementMinFull; rw [hC]
+  · rw [complementMin_eq, ok.accepts w, hl w, hs, hacc w]
+
+/-- `to_partial(minify=True)`: the call of `_minify` (kept = live ∩ non-trap ∪ {initial}) is
+admissible and its refinement system accepts the language of `d`. -/
+theorem C04_to_partial_min_call (d : AV.DFA σ α) (hd : d.validate = .ok ()) (pd : d.PyShape) :
+    MinifyCall d.partialStates d.syms d.trans d.init
+      (d.finals.filter fun q => decide (q ∈ d.partialStates)) ∧
+    ∀ w, mfin (d.finals.filter fun q => decide (q ∈ d.partialStates))
+        (mrun d.partialStates d.trans (some d.init) w) = d.accepts w := by
+  have wf := (DFA.validate_eq_ok d).mp hd
+  exact ⟨toPartialMin_call wf pd, toPartialMin_sys wf⟩
+
+/-- The full statement for `to_partial(minify=True)` (proved below modulo C05). -/
+def C04_to_partial_min_full : Prop :=
+  ∀ (σ α : Type) [DecidableEq σ] [DecidableEq α] (d : AV.DFA σ α) (pick : List Nat → Nat),
+    d.validate = .ok () → d.PyShape →
+    (d.toPartialMin pick).validate = .ok () ∧ (d.toPartialMin pick).PyShape ∧
+      (d.toPartialMin pick).syms = d.syms ∧ ∀ w, (d.toPartialMin pick).accepts w = d.accepts w
+
+/-- **`to_partial(minify=True)`** — given C05's guarantee `hmin` for the call of `_minify`. -/
+theorem C04_to_partial_min_partial (d : AV.DFA σ α) (pick : List Nat → Nat)
+    (hd : d.validate = .ok ()) (pd : d.PyShape)
+    (hmin : MinifyCoreOk d.partialStates d.syms d.trans d.init
+      (d.finals.filter fun q => decide (q ∈ d.partialStates)) pick) :
+    (d.toPartialMin pick).validate = .ok () ∧ (d.toPartialMin pick).PyShape ∧
+      (d.toPartialMin pick).syms = d.syms ∧ ∀ w, (d.toPartialMin pick).accepts w = d.accepts w := by
+  obtain ⟨_, hl⟩ := C04_to_partial_min_call d hd pd
+  rw [toPartialMin_eq]
+  exact ⟨hmin.valid, hmin.pyShape, minifyCore_syms _ _ _ _ _ _, fun w => (hmin.accepts w).trans (hl w)⟩
+
+/-- All three `minify=True` statements follow from C05's guarantee for admissible calls. -/
+theorem C04_min_of_C05
+    (hC05 : ∀ (σ α : Type) [DecidableEq σ] [DecidableEq α] (kept : List σ) (syms : List α)
+      (trans : List (σ × List (α × σ))) (init : σ) (finals : List σ) (pick : List Nat → Nat),
+      MinifyCall kept syms trans init finals → MinifyCoreOk kept syms trans init finals pick) :
+    C04_binop_min_full ∧ C04_complement_min_full ∧ C04_to_partial_min_full := by
+  refine ⟨C04_binop_min_of_C05 hC05, ?_, ?_⟩
+  · intro σ α _ _ d trap pick hd pd ht
+    refine C04_complement_min_partial d trap pick hd pd ht (fun C hC => ?_)
+    have wf := (DFA.validate_eq_ok d).mp hd
+    have : C.validate = .ok () ∧ C.PyShape ∧ C.IsComplete := by
+      cases hap : d.allowPartial with
+      | false =>
+        simp only [hap, Bool.false_eq_true, if_false] at hC
+        cases hC
+        exact ⟨hd, pd, isComplete_of_flag wf hap⟩
+      | true =>
+        simp only [hap, if_true] at hC
+        obtain ⟨C', hC', hv, hp, _, hc, _⟩ := C04_to_complete d hd pd trap false ht
+        rw [hC] at hC'; cases hC'
+        exact ⟨hv, hp, hc⟩
+    exact hC05 _ _ _ _ _ _ _ _ (C04_complement_min_call C this.1 this.2.1 this.2.2).1
+  · intro σ α _ _ d pick hd pd
+    exact C04_to_partial_min_partial d pick hd pd (hC05 _ _ _ _ _ _ _ _ (C04_to_partial_min_call d hd pd).1)
+
+example : (match exA.binopMin .diff exB with
+           | .ok M => (M.accepts [1], M.accepts [0, 1], M.states.length)
+           | .error _ => (false, false, 0)) = (false, true, 4) := by decide
+example : (match exA.complementMinFull 2 (fun _ => 0) with
+           | .ok M => (M.accepts [1], M.accepts [1, 1], M.accepts [5], M.states.length)
+           | .error _ => (false, false, false, 0)) = (false, true, false, 3) := by decide
+example : ((exC.toPartialMin).accepts [0, 0, 0], (exC.toPartialMin).accepts [0, 1],
+    (exC.toPartialMin).states.length) = (true, false, 2) := by decide
 
 end AV.Props.C04
